@@ -24,7 +24,7 @@ namespace vh {
     static constexpr unsigned char PATTERN = 0xDD;
     static constexpr size_t MAX_BLOCK = 16384;          // larger blocks are released normally
     static constexpr size_t MAX_BYTES = 192u << 20;     // quarantine budget, oldest blocks leave first (checked)
-    static constexpr size_t RING = 1u << 20;
+    static constexpr size_t RING = 3u << 15;    // at most 98304 blocks are kept (the oldest leave first, checked)
     static QBlock* g_ring = nullptr;
     static size_t g_head = 0, g_tail = 0, g_bytes = 0;
     static int g_lock = 0;
@@ -34,9 +34,9 @@ namespace vh {
 
     // open-addressing set of the quarantined block addresses: a second release of a block that is still in
     // quarantine is a double delete
-    static constexpr size_t SETSZ = 1u << 22;
+    static constexpr size_t SETSZ = 1u << 18;    // (2 MiB: a larger table costs a page fault per release in every per-run process)
     static void* g_set[SETSZ];
-    static size_t slot_of(void* p) { return (size_t) (((uintptr_t) p >> 4) * 0x9E3779B97F4A7C15ull >> 42) & (SETSZ - 1); }
+    static size_t slot_of(void* p) { return (size_t) (((uintptr_t) p >> 4) * 0x9E3779B97F4A7C15ull >> 40) & (SETSZ - 1); }
     static bool set_has(void* p)
     {
         for (size_t i = slot_of(p);; i = (i + 1) & (SETSZ - 1))
